@@ -35,6 +35,7 @@
 #include "newlines/remove.h"
 #include "newlines/sparens.h"
 #include "newlines/squeeze.h"
+#include "options_for_QT.h"
 #include "output.h"
 #include "parens.h"
 #include "parent_for_pp.h"
@@ -2525,6 +2526,12 @@ void uncrustify_end()
    if (cpd.bout)
    {
       cpd.bout->clear();
+   }
+
+   // a SIGNAL/SLOT override that was not closed must not leak into the next file
+   if (QT_SIGNAL_SLOT_found)
+   {
+      restore_options_for_QT();
    }
    // Clean up some state variables
    cpd.unc_off     = false;
